@@ -2,7 +2,7 @@
 from .. import AnalysisBroken
 from ..nnabs import MOD, fold, simp, simplify
 from ..rules import Equiv, canon_params, check_equiv, rewrite, std_rewrites, where_of
-from ..terms import FALSE, NONE, TRUE, const, head, is_const, show, strip, strip_all, subst
+from ..terms import FALSE, NONE, TRUE, const, head, is_const, show, strip, strip_all, subst, walk
 
 Q = MOD + "nearest_neighbor_tcrdist"
 
@@ -40,8 +40,13 @@ def check_tcrdist(r, rule):
         raise AnalysisBroken(f"{Q}: signature {pn} differs from the analysed one {need}")
     P = lambda n: ("param", n)
     stores = [e for e in s.events_of("setitem")]
-    if "neighbors" not in s.env:
-        raise AnalysisBroken(f"{Q}: local 'neighbors' not found (anchor vanished)")
+    # the candidate list: the local that holds the result of the nearest_neighbor call(s), whatever it is called
+    cand_names = [k for k, v in s.env.items() if isinstance(k, str) and isinstance(v, tuple)
+                  and any(x[0] == "call" and strip(x[1]) == ("glob", MOD + "nearest_neighbor") for x in walk(v))
+                  and not any(x[0] == "call" and strip(x[1]) in (("glob", "numpy.array"), ("glob", "numpy.asarray")) for x in walk(v))]
+    NB = "neighbors" if "neighbors" in s.env else (cand_names[0] if len(cand_names) == 1 else None)
+    if NB is None:
+        raise AnalysisBroken(f"{Q}: the local holding the candidate list was not found (anchor vanished)")
     eq = Equiv(rewrites=std_rewrites() + [simp], modelled={"pandas.read_csv", "os.path.join", "os.path.dirname", "builtins.list", "builtins.dict", "numpy.empty"})
     for chain, letters in (("beta", "B"), ("alpha", "A"), ("both", "BA")):
         for trimmed in (True, False):
@@ -54,7 +59,7 @@ def check_tcrdist(r, rule):
             sp_n = r.A.summarize_source(src, "spec_neighbors", "pyrepseq.nn")
             sp_t = r.A.summarize_source(src, "spec_total", "pyrepseq.nn")
             # ---- candidates
-            code_n = fold(s.env["neighbors"], m)
+            code_n = fold(s.env[NB], m)
             check_equiv(rep, rule + "-CAND", Q, f"candidates are nearest_neighbor on the {'trimmed ' if trimmed else ''}CDR3 of the selected chain with the caller's max_edits and kwargs ({case})",
                         code_n, sp_n.ret, where, eq=eq, key=f"candidates {case}")
             if trimmed:
@@ -68,7 +73,7 @@ def check_tcrdist(r, rule):
             edges = None
             code_t = fold(e["value"], m)
             # the array and its edge view
-            arr_ok = head(strip(arr)) == "call" and strip(strip(arr)[1]) in (("glob", "numpy.array"), ("glob", "numpy.asarray")) and strip_all(strip(arr)[2][0]) == strip_all(s.env["neighbors"])
+            arr_ok = head(strip(arr)) == "call" and strip(strip(arr)[1]) in (("glob", "numpy.array"), ("glob", "numpy.asarray")) and strip_all(strip(arr)[2][0]) == strip_all(s.env[NB])
             rep.ob(rule + "-SUM", Q, arr_ok, "the distances are written into the array built from the candidate list", where_of(r.P, s.func, e.node), expected="np.array(neighbors)[:, 2] = tcrdist", found=show(arr, 60), key=f"array {case}")
             edges_term = ("sub", strip_all(fold(arr, m)), ("tuple", (("slice", NONE, NONE, NONE), ("slice", NONE, const(2), NONE))))
             spec_t = subst(sp_t.ret, {P("edges"): edges_term})
